@@ -117,6 +117,121 @@ open TongoGen.TlbTypes in
 theorem impl_eq_spec_SignedMsgBody : implementsSpec env desc_wallet_SignedMsgBody Spec.SignedMsgBody = true := by
   decide +kernel
 
+
+/-! accounts and transactions -/
+open TongoGen.TlbTypes in
+theorem impl_eq_spec_StorageUsed : implementsSpec env desc_tlb_StorageUsed Spec.StorageUsed = true := by
+  decide +kernel
+open TongoGen.TlbTypes in
+theorem impl_eq_spec_StorageExtraInfo : implementsSpec env desc_tlb_StorageExtraInfo Spec.StorageExtraInfo = true := by
+  decide +kernel
+open TongoGen.TlbTypes in
+theorem impl_eq_spec_StorageInfo : implementsSpec env desc_tlb_StorageInfo Spec.StorageInfo = true := by
+  decide +kernel
+open TongoGen.TlbTypes in
+theorem impl_eq_spec_AccountState : implementsSpec env desc_tlb_AccountState Spec.AccountState = true := by
+  decide +kernel
+open TongoGen.TlbTypes in
+theorem impl_eq_spec_AccountStorage : implementsSpec env desc_tlb_AccountStorage Spec.AccountStorage = true := by
+  decide +kernel
+open TongoGen.TlbTypes in
+theorem impl_eq_spec_ExistedAccount : implementsSpec env desc_tlb_ExistedAccount Spec.ExistedAccount = true := by
+  decide +kernel
+open TongoGen.TlbTypes in
+theorem impl_eq_spec_Account : implementsSpec env desc_tlb_Account Spec.Account = true := by
+  decide +kernel
+open TongoGen.TlbTypes in
+theorem impl_eq_spec_ShardAccount : implementsSpec env desc_tlb_ShardAccount Spec.ShardAccount = true := by
+  decide +kernel
+open TongoGen.TlbTypes in
+theorem impl_eq_spec_AccountStatus : implementsSpec env desc_tlb_AccountStatus Spec.AccountStatus = true := by
+  decide +kernel
+open TongoGen.TlbTypes in
+theorem impl_eq_spec_AccStatusChange : implementsSpec env desc_tlb_AccStatusChange Spec.AccStatusChange = true := by
+  decide +kernel
+open TongoGen.TlbTypes in
+theorem impl_eq_spec_ComputeSkipReason : implementsSpec env desc_tlb_ComputeSkipReason Spec.ComputeSkipReason = true := by
+  decide +kernel
+open TongoGen.TlbTypes in
+theorem impl_eq_spec_TrStoragePhase : implementsSpec env desc_tlb_TrStoragePhase Spec.TrStoragePhase = true := by
+  decide +kernel
+open TongoGen.TlbTypes in
+theorem impl_eq_spec_TrCreditPhase : implementsSpec env desc_tlb_TrCreditPhase Spec.TrCreditPhase = true := by
+  decide +kernel
+open TongoGen.TlbTypes in
+theorem impl_eq_spec_TrComputePhase : implementsSpec env desc_tlb_TrComputePhase Spec.TrComputePhase = true := by
+  decide +kernel
+open TongoGen.TlbTypes in
+theorem impl_eq_spec_TrActionPhase : implementsSpec env desc_tlb_TrActionPhase Spec.TrActionPhase = true := by
+  decide +kernel
+open TongoGen.TlbTypes in
+theorem impl_eq_spec_TrBouncePhase : implementsSpec env desc_tlb_TrBouncePhase Spec.TrBouncePhase = true := by
+  decide +kernel
+open TongoGen.TlbTypes in
+theorem impl_eq_spec_SplitMergeInfo : implementsSpec env desc_tlb_SplitMergeInfo Spec.SplitMergeInfo = true := by
+  decide +kernel
+open TongoGen.TlbTypes in
+theorem impl_eq_spec_TransactionDescr : implementsSpec env desc_tlb_TransactionDescr Spec.TransactionDescr = true := by
+  decide +kernel
+open TongoGen.TlbTypes in
+theorem impl_eq_spec_HashUpdate : implementsSpec env desc_tlb_HashUpdate Spec.HashUpdate = true := by
+  decide +kernel
+open TongoGen.TlbTypes in
+theorem impl_eq_spec_Transaction : implementsSpec env desc_tlb_Transaction Spec.Transaction = true := by
+  decide +kernel
+
+
+/-! wallet v5 (r1): the list of out-actions, the extended actions and the signed / extension bodies. The extended
+actions (`chain`) have a model and this schema tie, but no round-trip theorem (C03): the decoder follows the next
+reference of the cell whenever there is one, which the greedy / non-greedy split of `RT` does not express. -/
+open TongoGen.TlbTypes in
+theorem impl_eq_spec_OutList : implementsSpec env desc_wallet_W5Actions Spec.OutList = true := by decide +kernel
+open TongoGen.TlbTypes in
+theorem impl_eq_spec_W5ExtendedAction :
+    implementsSpec env desc_wallet_W5ExtendedAction Spec.W5ExtendedAction = true := by decide +kernel
+open TongoGen.TlbTypes in
+theorem impl_eq_spec_WalletV5R1Body : implementsSpec env desc_wallet_MessageV5 Spec.WalletV5R1Body = true := by
+  decide +kernel
+
+
+/-! a `maybe` pointer field whose element is written by reflection (config parameter 5), and MsgMetadata -/
+open TongoGen.TlbTypes in
+theorem impl_eq_spec_BurningConfig : implementsSpec env desc_tlb_BurningConfig Spec.BurningConfig = true := by
+  decide +kernel
+open TongoGen.TlbTypes in
+theorem impl_eq_spec_MsgMetadata : implementsSpec env desc_tlb_MsgMetadata Spec.MsgMetadata = true := by
+  decide +kernel
+
+/-! highload wallet v2: the body after the signature -/
+open TongoGen.TlbTypes in
+theorem impl_eq_spec_HighloadV2Body :
+    implementsSpec env desc_wallet_HighloadV2Message Spec.HighloadV2Body = true := by decide +kernel
+
+/-- **impl_eq_spec_hashmapE**: a Go `HashmapE[K, V]` against `HashmapE n X` of the schema. The matcher asks for the
+key width `n`, a key descriptor that implements the schema's key type and a value descriptor that implements `X`;
+then every in-domain dictionary (empty or not) is written as `hme_empty$0` / `hme_root$1 root:^(Hashmap n X)` where the
+tree is `Tongo.Hashmap.marshal` over the keys and values AS THE SCHEMA SERIALISES THEM. That `marshal` writes a valid
+`hm_edge` / `hmn_leaf` / `hmn_fork` tree with the shortest labels and the given meaning is C05
+(`encode_sorted_tree`, `labels_shortest`); what C04 adds is that keys and values inside it are schema-exact
+(`Lemmas/TlbSpec.agree_dictE`, by monotonicity of `marshal` in the value codec: `Hashmap.marshal_mono_on`). -/
+theorem impl_eq_spec_hashmapE (env : Env) (k t : Ty) (n : Nat) (sk st : SType)
+    (hm : implementsSpec env (.dictE k t) (.hashmapE n sk st) = true)
+    (fuel : Nat) (v : Val) (hd : inDom env fuel (.dictE k t) v = true) (b b' : Builder)
+    (he : encode env fuel (.dictE k t) v b = .ok b') :
+    ∃ g c, specChunk senv g (.hashmapE n sk st) v = some c ∧ b' = b.app c.1 c.2 :=
+  impl_eq_spec env _ _ hm fuel v hd b b' he
+
+set_option maxRecDepth 20000 in
+/-- the extra-currency dictionary `{7 ↦ 1000}` according to the schema: `hme_root$1`, one reference to the root leaf
+with label `hml_long$10` of 32 bits and the value `VarUInteger 32` (TEST on a literal) -/
+example :
+    (match specChunk senv 8 Spec.ExtraCurrencyCollection
+        (Val.list [Val.list [Val.list [.int 7], Val.list [.int 1000]]]) with
+      | some ([true], [Cell.mk 0 0 bits []]) =>
+        decide (bits = [true, false] ++ natToBits 6 32 ++ natToBits 32 7 ++ natToBits 5 2 ++ natToBits 16 1000)
+      | _ => false) = true := by
+  decide
+
 /-- **impl_eq_spec_MsgAddress_codec**: the hand-written `MsgAddress.MarshalTLB` writes what the four constructors
 of MsgAddressInt / MsgAddressExt prescribe (anycast depth 1..30, extern length 0..511) -/
 theorem impl_eq_spec_MsgAddress_codec (v : Val) (b b' : Builder) (hd : Prim.msgAddress.inDom v = true)
